@@ -163,8 +163,7 @@ def optStr (j : Json) (k : String) : R (Option String) :=
   | some .null => pure none
   | some v => do return some (← jStr v)
 
-/-- a leaf object: `{"builtin": "SigmaX"|"SigmaY"|"SigmaZ"|"SWAP"}`, `{"builtin": "NI", "periodic": flag, "c": n,
-"c_tensor": b}` (→ `Builtin.names`), or a user class `{"cls": name, "name": str|null, "symbol": str|null}` (what was
+/-- a leaf object: `{"builtin": "SigmaX"|"SigmaY"|"SigmaZ"|"SWAP"}`, `{"builtin": "NI", "periodic": flag, "c": n}` (→ `Builtin.names`), or a user class `{"cls": name, "name": str|null, "symbol": str|null}` (what was
 assigned through the setters, null = never / `None`) -/
 def parseIdent (j : Json) : R Composite.Ident := do
   match fldOpt j "builtin" with
@@ -175,7 +174,7 @@ def parseIdent (j : Json) : R Composite.Ident := do
       | "SWAP" => pure Builtin.swap
       | "NI" => do
         let p ← parseFlag (← fld j "periodic")
-        pure (Builtin.neighbour p (← jNat (← fld j "c")) (← jBool (← fld j "c_tensor")))
+        pure (Builtin.neighbour p (← jNat (← fld j "c")))
       | t => .error s!"unknown builtin {t}")
     let (cls, nm, sy) := bi.names
     -- `__init__` assigns through the setters
